@@ -694,6 +694,48 @@ example : ∃ (T E : ℝ → ℂ) (gy gx : Cfg ℝ ℂ) (woy wox : ℂ), IsChar 
     1 / 4, 1 / 6, expT_isChar, expE_isChar, expT_period, by norm_num, by norm_num, by norm_num,
     by norm_num, by norm_num, by norm_num, by norm_num, by norm_num⟩
 
+/-- **`emulate_fftshifts`, the literal 3-D array program** (`fastForward3`/`fastBackward3`), the same statement for three
+axes.  Rests on `C01.fast_forward_eq_sum_3d`, `C01.fast_backward_eq_sum_3d`. -/
+theorem fft_emulate_switch_independent_3d (hT : IsChar T) (hE : IsChar E)
+    (hper : ∀ n : ℤ, T (n : K) = 1) (gz gy gx : Cfg K C)
+    (hNz : gz.N ≤ gz.M) (hMoz : gz.Mo ≤ gz.M) (hcz : gz.dT * (gz.M : K) * gz.δ = 1)
+    (hNy : gy.N ≤ gy.M) (hMoy : gy.Mo ≤ gy.M) (hcy : gy.dT * (gy.M : K) * gy.δ = 1)
+    (hNx : gx.N ≤ gx.M) (hMox : gx.Mo ≤ gx.M) (hcx : gx.dT * (gx.M : K) * gx.δ = 1)
+    (wz wy wx : C) (hwz : wz * (gz.M : C) * gz.w = 1) (hwy : wy * (gy.M : C) * gy.w = 1)
+    (hwx : wx * (gx.M : C) * gx.w = 1) (e1 e2 : Bool) :
+    (∀ f kz ky kx, kz < gz.Mo → ky < gy.Mo → kx < gx.Mo →
+      fastForward3 T E { gz with emu := e1 } { gy with emu := e1 } { gx with emu := e1 } f kz ky kx
+        = fastForward3 T E { gz with emu := e2 } { gy with emu := e2 } { gx with emu := e2 } f kz ky kx) ∧
+    (∀ F jz jy jx, jz < gz.N → jy < gy.N → jx < gx.N →
+      fastBackward3 T E { gz with emu := e1 } { gy with emu := e1 } { gx with emu := e1 } F jz jy jx
+        = fastBackward3 T E { gz with emu := e2 } { gy with emu := e2 } { gx with emu := e2 } F jz jy jx) := by
+  constructor
+  · intro f kz ky kx hkz hky hkx
+    rw [C01.fast_forward_eq_sum_3d hT hE hper { gz with emu := e1 } { gy with emu := e1 } { gx with emu := e1 } rfl rfl
+        hNz hMoz hcz hNy hMoy hcy hNx hMox hcx f kz ky kx hkz hky hkx,
+      C01.fast_forward_eq_sum_3d hT hE hper { gz with emu := e2 } { gy with emu := e2 } { gx with emu := e2 } rfl rfl
+        hNz hMoz hcz hNy hMoy hcy hNx hMox hcx f kz ky kx hkz hky hkx]
+    rfl
+  · intro F jz jy jx hjz hjy hjx
+    rw [C01.fast_backward_eq_sum_3d hT hE hper { gz with emu := e1 } { gy with emu := e1 } { gx with emu := e1 } rfl rfl
+        hNz hMoz hcz hNy hMoy hcy hNx hMox hcx wz wy wx hwz hwy hwx F jz jy jx hjz hjy hjx,
+      C01.fast_backward_eq_sum_3d hT hE hper { gz with emu := e2 } { gy with emu := e2 } { gx with emu := e2 } rfl rfl
+        hNz hMoz hcz hNy hMoy hcy hNx hMox hcx wz wy wx hwz hwy hwx F jz jy jx hjz hjy hjx]
+    rfl
+
+/-- satisfiability: three different axes (`2→4→3`, `3→6→6`, `1→2→2`) -/
+example : ∃ (T E : ℝ → ℂ) (gz gy gx : Cfg ℝ ℂ) (wz wy wx : ℂ), IsChar T ∧ IsChar E ∧
+    (∀ n : ℤ, T (n : ℝ) = 1) ∧ gz.N ≤ gz.M ∧ gz.Mo ≤ gz.M ∧ gz.dT * (gz.M : ℝ) * gz.δ = 1 ∧
+    gy.N ≤ gy.M ∧ gy.Mo ≤ gy.M ∧ gy.dT * (gy.M : ℝ) * gy.δ = 1 ∧
+    gx.N ≤ gx.M ∧ gx.Mo ≤ gx.M ∧ gx.dT * (gx.M : ℝ) * gx.δ = 1 ∧
+    wz * (gz.M : ℂ) * gz.w = 1 ∧ wy * (gy.M : ℂ) * gy.w = 1 ∧ wx * (gx.M : ℂ) * gx.w = 1 :=
+  ⟨expT, expE,
+    { N := 1, M := 2, Mo := 2, δ := 1, z := 0, dT := 1 / 2, s := 0, w := 1, emu := false },
+    { N := 2, M := 4, Mo := 3, δ := 1 / 2, z := 0, dT := 1 / 2, s := 0, w := 1, emu := false },
+    { N := 3, M := 6, Mo := 6, δ := 1 / 3, z := -1, dT := 1 / 2, s := 1, w := 1, emu := false },
+    1 / 2, 1 / 4, 1 / 6, expT_isChar, expE_isChar, expT_period, by norm_num, by norm_num, by norm_num,
+    by norm_num, by norm_num, by norm_num, by norm_num, by norm_num, by norm_num, by norm_num, by norm_num, by norm_num⟩
+
 /-- **`emulate_fftshifts`, any number of axes** (the iterated pipeline `fastForwardN`, which C01 proves
 equal to the literal array program for 2 and 3 axes): setting the switch on every axis of the list to
 `e1` or to `e2` gives the same output sample.  Induction over the axes with
